@@ -189,6 +189,12 @@ func (r *Run) StateKey(key string) bool {
 	_, ok := r.stKeys[h]
 	if !ok {
 		r.stKeys[h] = struct{}{}
+		if f := os.Getenv("VERIF_DUMP_STATE_KEYS"); f != "" { // debugging aid: append every new state key to a file
+			if fh, err := os.OpenFile(f, os.O_APPEND|os.O_CREATE|os.O_WRONLY, 0o644); err == nil {
+				fmt.Fprintln(fh, key)
+				fh.Close()
+			}
+		}
 	}
 	r.mu.Unlock()
 	return !ok
